@@ -205,8 +205,18 @@ def cycle_entry_graphs():
     return out
 
 
+def dangling_include_graphs():
+    """an included file that ENDS in a bare include keyword (followed by nothing, blanks or a comment), while the including file
+    continues with a quoted name of an existing file, another token, or nothing: a directive never spans a file boundary"""
+    out = []
+    for tail in (b'include', b'include\n\n', b'include // c\n', b'INCLUDE   ', b'y := 2 ;\ninclude'):
+        for cont in (b' "b" x := 1\n', b'\n"b"\n', b' x := 1\n', b'', b' include "b"\n'):
+            out.append((b'm', {b'm': b'include "a"' + cont, b'a': b'v := 1 ;\n' + tail, b'b': b'z := 3 ;\n'}))
+    return out
+
+
 def include_graphs(ctx, n):
-    cases = special_name_graphs() + cycle_entry_graphs()
+    cases = special_name_graphs() + cycle_entry_graphs() + dangling_include_graphs()
     r = ctx.rnd
     for _ in range(n):
         # file names: mostly plain; sometimes boundary spellings (the empty name, a blank, a case twin, a path, a name with
